@@ -169,13 +169,10 @@ func (m *mon) judgeDecoded(recipe string, a item, d value.Value, wire []byte) (e
 			}
 		}
 	}
-	where := func() {
-		if dsh == shMixed {
-			if w := firstUnequalLeaf(a.s, a.v, d); w != "" {
-				dt = w + "×" + w
-			}
-		}
+	if dsh != shPlain {
+		c.Count("decoded_copy_shape_"+dsh, 1)
 	}
+	where := func() { dsh, dt = nameDecodedFailure(a.s, a.v, d, dsh, dt) }
 	e1, p1 := eq(a.v, d)
 	e2, p2 := eq(d, a.v)
 	ok = p1 == nil && p2 == nil
@@ -194,9 +191,6 @@ func (m *mon) judgeDecoded(recipe string, a item, d value.Value, wire []byte) (e
 	case !e2:
 		where()
 		c.Fail("Equals-symmetric/"+dt+"/"+dsh, "v.Equals(copy) is true but copy.Equals(v) is false for the decoded copy; v="+renderShort(a.s), det())
-	}
-	if dsh != shPlain {
-		c.Count("decoded_copy_shape_"+dsh, 1)
 	}
 	return
 }
